@@ -7,6 +7,7 @@ C02_Pool == {
   <<"HY", "SP", "a">>,                                 \* root
   <<"AS", "SP", "b">>,                                 \* root, other bullet
   <<"PL", "b">>,                                       \* root written without a blank after the bullet ("+b")
+  <<"SP", "SP", "HY", "SP", "HY", "HY">>,              \* depth 2, a name made of the bullet's own symbol ("- --")
   <<"SP", "SP", "HY", "SP", "a">>,                     \* depth 2 (unit = 2 spaces)
   <<"SP", "SP", "PL", "SP", "b">>,                     \* depth 2, other bullet
   <<"SP", "SP", "SP", "SP", "HY", "SP", "a">>,         \* depth 3
